@@ -6,7 +6,7 @@ import runner_props
 PROP = "C14"
 LEAN_MODULES = ["PamsProps.C14"]
 NAMESPACES = ["Pams.C14"]
-DRIVERS = ["Events", "Runner"]
+DRIVERS = ["Events", "Runner", "Sim"]
 TRUSTED = [
     "arithmetic theorems are over ordered fields; the same Lean definitions are evaluated at Float and compared with Python bit-for-bit (tolerance 1e-12 only where noted)",
     "event objects are driven through their public handlers; whole runs are observed through the instrumented simulator",
